@@ -110,9 +110,15 @@ def is_continuous(n):
 
 # ----------------------------------------------------------------------------- reference densities (independent of SciPy)
 def iso_pdf_table(n):
+    """(breaks, normalised bin heights) of the density scipy.stats.rv_histogram realises for the leaf's parameters: the numbers
+    are heights when the bin widths vary and counts (divided by the widths) when `np.allclose(widths, widths[0])`; always
+    renormalised by the total mass (Model/LeafQ.lean `isoHeights`, `histZ`; proved to integrate to one in Props/LeafTheory.lean)"""
     d = [float(x) for x in n.densities]
     b = [float(x) for x in n.breaks]
-    z = sum(di * (b[i + 1] - b[i]) for i, di in enumerate(d))
+    w = [b[i + 1] - b[i] for i in range(len(d))]
+    if np.allclose(w, w[0]):
+        d = [di / wi for di, wi in zip(d, w)]
+    z = sum(di * wi for di, wi in zip(d, w))
     return b, [di / z for di in d]
 
 
